@@ -150,3 +150,10 @@ META['C09'] = dict(
     technique='stateful model-based testing (rapid state machine) of the live binary under tmux through --listen: readline / list-cursor / selection reference model compared with GET state after every step',
     level_text='Exploration: ~1000 (quick) to ~16000 (thorough) live sessions of 5-40 steps over generated lists, geometries, layouts and --multi limits; final stdout and exit status checked.',
     level_note='Trusts the model in harness/oracle/editor.go and the result lists of fzf --filter (C08); tmux 3.3a as the terminal.')
+
+META['C14'] = dict(
+    engine='rapid-proc',
+    design_ref='DESIGN.md section 4, C14',
+    technique='property-based robustness testing (rapid) of the live binary under tmux: generated option sets, window sizes, action/key/mouse/resize histories and exit moments against liveness and terminal/tmp/process hygiene predicates',
+    level_text='Exploration: hundreds (quick) to thousands (thorough) of live sessions; after every step fzf must answer, at exit stty settings, private terminal modes, alternate screen, mouse modes, TMPDIR and the process table must be clean.',
+    level_note='tmux 3.3a is the terminal emulator; timing of exits relative to running child commands is varied, not controlled; SIGINT is repeated because fzf leaves it to a running execute/transform command by design.')
